@@ -9,6 +9,7 @@ import (
 	"fmt"
 	"io"
 	"net"
+	"os"
 	"path/filepath"
 	"strings"
 	"sync"
@@ -154,6 +155,10 @@ func (w *world) upstreamHandler(oc *lib.OConn, req *lib.Msg) lib.Action {
 }
 
 func startChild(run *lib.Run, w *world, name string, extra ...string) *child {
+	return startChildBin(run, w, lib.Bin(run, "forwarder"), name, extra...)
+}
+
+func startChildBin(run *lib.Run, w *world, bin, name string, extra ...string) *child {
 	args := []string{"--address", "127.0.0.1:0", "--proxy-localhost", "allow", "--http-dial-attempts", "1", "--http-dial-timeout", "400ms", "--log-level", "error",
 		"--cacert-file", lib.DataURI(w.ca.CertPEM),
 		"--connect-to", "fault.test:80:127.0.0.1:" + w.origin.Port() + ",faulttls.test:443:127.0.0.1:" + w.torigin.Port() + ",plainonhttps.test:443:" + w.plainTLSAddr + ",wrongcert.test:443:127.0.0.1:" + w.torigin.Port() +
@@ -165,7 +170,7 @@ func startChild(run *lib.Run, w *world, name string, extra ...string) *child {
 			args[i+1] = "info"
 		}
 	}
-	cli, err := lib.StartCLI(lib.Bin(run, "forwarder"), args, nil, filepath.Join(run.Work, "child-"+name+".log"), "")
+	cli, err := lib.StartCLI(bin, args, nil, filepath.Join(run.Work, "child-"+name+".log"), "")
 	if err != nil {
 		run.Inconclusive("child " + name + ": " + err.Error())
 		return nil
@@ -174,7 +179,7 @@ func startChild(run *lib.Run, w *world, name string, extra ...string) *child {
 }
 
 func main() {
-	run := lib.Start("C12", "upstream fault enumeration against the real binary as a child process: connection refused, connect time-out (unanswered address, 400 ms dial timeout), TLS failures (plain HTTP on the https port, garbage, close mid-handshake, wrong certificate), upstream proxy rejecting CONNECT with 403/407/502/503 with/without body, garbage or close instead of a CONNECT reply, rejection body cut short, origin FIN/RST after k bytes for every k of the reply head and boundary k of CL/chunked bodies, 11 malformed replies; x request kinds GET / POST with body / HEAD / https through MITM / via upstream proxy; hostile client byte streams (mutated, truncated at every offset, oversized, binary, TLS to plain listener and HTTP to TLS listener, garbage inside MITM) with a concurrent well-behaved connection; after every batch a probe must be served and the child must be alive; distinct = (fault class, cut position class, framing, request kind, route)")
+	run := lib.Start("C12", "upstream fault enumeration against the real binary as a child process: connection refused, connect time-out (unanswered address, 400 ms dial timeout), TLS failures (plain HTTP on the https port, garbage, close mid-handshake, wrong certificate), upstream proxy rejecting CONNECT with 403/407/502/503 with/without body, garbage or close instead of a CONNECT reply, rejection body cut short, origin FIN/RST after k bytes for every k of the reply head and boundary k of CL/chunked bodies, 11 malformed replies; x request kinds GET / POST with body / HEAD / https through MITM / via upstream proxy; hostile client byte streams (mutated, truncated at every offset, oversized, binary, TLS to plain listener and HTTP to TLS listener, garbage inside MITM) with a concurrent well-behaved connection; 300 idle connections against a child limited to 96 file descriptors, after which it must serve again; after every batch a probe must be served and the child must be alive; distinct = (fault class, cut position class, framing, request kind, route)")
 	hb := lib.StartHeartbeat()
 	root := run.RNG()
 	w := &world{run: run, hb: hb}
@@ -199,6 +204,7 @@ func main() {
 	children := []*child{direct, viaUp, tlsL}
 	upstreamFaults(run, w, root, direct, viaUp)
 	hostileClients(run, w, root, direct, tlsL)
+	fdFlood(run, w)
 	for _, c := range children {
 		if !c.cli.Alive() {
 			run.Violation("process-died:"+c.name, "forwarder child exited: "+lib.Trunc(tail(c.cli.Output(), 2000), 2000), -1, nil)
@@ -210,6 +216,7 @@ func main() {
 	run.Floor("fault_cases_checked", 300)
 	run.Floor("hostile_inputs_checked", 200)
 	run.Floor("probes_served", 20)
+	run.Floor("fd_flood_recovered", 1)
 	run.Floor("error_responses_validated", 100)
 	run.Floor("incomplete_then_close_observed", 20)
 	run.Finish()
@@ -220,6 +227,68 @@ func tail(s string, n int) string {
 		return s[len(s)-n:]
 	}
 	return s
+}
+
+// fdFlood: more simultaneous idle connections than the proxy process has file descriptors for.
+// While they are held, accept fails in the proxy; once they are gone the same process must serve
+// a well-behaved request again (bounded progress: 15 s, qualified by the heartbeat).
+func fdFlood(run *lib.Run, w *world) {
+	const idx = 2_000_000
+	if !run.Want(idx) {
+		return
+	}
+	run.Case(idx, "hostile|fd-flood", nil)
+	wrapper := filepath.Join(run.Work, "forwarder-lowfd.sh")
+	script := "#!/bin/sh\nulimit -n 96\nexec " + lib.Bin(run, "forwarder") + " \"$@\"\n"
+	if err := os.WriteFile(wrapper, []byte(script), 0o755); err != nil {
+		run.Inconclusive("fd flood: " + err.Error())
+		return
+	}
+	c := startChildBin(run, w, wrapper, "lowfd")
+	if c == nil {
+		return
+	}
+	defer c.cli.Stop()
+	if !probe(run, c, idx, "start-up with 96 file descriptors") {
+		return
+	}
+	var conns []net.Conn
+	for i := 0; i < 300; i++ {
+		if cn, err := net.DialTimeout("tcp", c.cli.ProxyAddr, 2*time.Second); err == nil {
+			conns = append(conns, cn)
+		}
+	}
+	time.Sleep(1500 * time.Millisecond)
+	alive := c.cli.Alive()
+	for _, cn := range conns {
+		cn.Close()
+	}
+	run.Count("fd_flood_connections", int64(len(conns)))
+	if !alive {
+		run.Violation("process-died:lowfd", "forwarder exited while "+fmt.Sprint(len(conns))+" idle connections exhausted its file descriptors: "+lib.Trunc(tail(c.cli.Output(), 2000), 2000), idx, nil)
+		return
+	}
+	t0 := time.Now()
+	for time.Since(t0) < 15*time.Second {
+		if st, err := lib.Dial(c.cli.ProxyAddr); err == nil {
+			fmt.Fprintf(st.C, "GET http://fault.test/probe HTTP/1.1\r\nHost: fault.test\r\nX-Vid: probe-fd\r\n\r\n")
+			m, pst, _ := st.ReadResponse("GET", 3*time.Second)
+			st.Close()
+			if pst == lib.POK && m.Status == 200 {
+				run.Count("fd_flood_recovered", 1)
+				return
+			}
+		}
+		if !c.cli.Alive() {
+			break
+		}
+		time.Sleep(100 * time.Millisecond)
+	}
+	if !w.hb.Healthy(t0) {
+		run.Inconclusive("fd flood recovery, unhealthy heartbeat")
+		return
+	}
+	run.Violation("fd-exhaustion-stops-serving", fmt.Sprintf("%d idle connections exhausted the proxy's file descriptors for 1.5 s; 15 s after they were closed a well-behaved request is still not served (process alive: %v): %s", len(conns), c.cli.Alive(), lib.Trunc(tail(c.cli.Output(), 1500), 1500)), idx, nil)
 }
 
 // probe: a healthy request through child c must be served.
